@@ -14,9 +14,46 @@ def exec_one(unit, prefix, expect=None):
     return simcheck.exec_with(JUDGES, unit, prefix, expect, need_base=NEED_BASE)
 
 
+VALUES = {
+    "tuple": {"$t": "tuple", "v": [1, "a", None, {"$t": "tuple", "v": []}]},
+    "nested-dict": {"a": {"b": [1, {"$t": "tuple", "v": [2, 3]}], "t": "x", "v": None}, "": []},
+    "decimal": {"$t": "dec", "v": "1.10"},
+    "bytes": {"$t": "bytes", "v": "00ff10"},
+    "datetime": {"$t": "dt", "v": "2024-01-02T03:04:05.678901+05:30"},
+    "naive-datetime": {"$t": "dt", "v": "2024-01-02T03:04:05"},
+    "date": {"$t": "date", "v": "2024-02-29"},
+    "uuid": {"$t": "uuid", "v": "12345678-1234-5678-1234-567812345678"},
+    "none": None, "true": True, "one": 1, "zero-float": 0.0, "neg-zero": {"$t": "float", "v": "-0.0"},
+    "nan-in-list": [{"$t": "float", "v": "nan"}], "empty-list": [], "empty-tuple": {"$t": "tuple", "v": []},
+    "empty-dict": {}, "empty-str": "", "lookalike": {"t": "i", "v": 5}, "big-int": 2 ** 70,
+    "list-of-tuples": [{"$t": "tuple", "v": [1]}, {"$t": "tuple", "v": [True, 1, 1.0]}],
+}
+
+
+def value_programs(tier):
+    out = []
+    names = list(VALUES) if tier != "quick" else list(VALUES)
+    for n in names:
+        v = VALUES[n]
+        out.append({"name": f"value[{n}]", "seq": [
+            {"k": "step", "fn": {"ret": v}}, {"k": "wait", "s": 1},
+            {"k": "child", "body": [{"k": "step", "fn": {"ret": v}}, {"k": "wait", "s": 1}], "ret": v},
+            {"k": "wfc", "init": v, "check": {"fn": "id"}, "decide": [{"cont": 1}, "stop"]},
+            {"k": "par", "cfg": {"cc": "all_completed"}, "branches": [[{"k": "step", "fn": {"ret": v}}], [{"k": "wait", "s": 1}]]},
+            {"k": "step", "fn": {"ret": "end"}}]})
+    return out
+
+
 def run(ctx):
     units = simcheck.standard_space(ctx.tier)
-    return simcheck.run_check(ctx, MOD, units, BOUNDS)
+    cap = 20_000 if ctx.tier == "quick" else 400_000
+    for p in value_programs(ctx.tier):
+        units.append(({"program": p, "cfg": {"env_kinds": ["crash", "page"], "page_modes": [0, 1, 4]}},
+                      {"crash": 1, "page": 1, "total": 1} if ctx.tier == "quick" else {"crash": 2, "page": 1, "total": 2}, cap))
+    return simcheck.run_check(ctx, MOD, units, BOUNDS + "; plus 21 value programs (tuple, nested dict, Decimal, bytes, aware/naive "
+                              "datetime, date, UUID, None, bool, ints, signed zero, NaN, empty containers, envelope look-alike, "
+                              "2^70) delivered by a step, a child context, wait_for_condition and a parallel branch, each replayed "
+                              "after every suspension and every single crash point")
 
 
 def replay(rep):
